@@ -295,9 +295,74 @@ theorem maskLazy_independent (lit : Str) (ae : Bool) (hlit : Safe lit) {e1 e2 : 
         rw [hqs hne]
         refine ⟨lit ++ xxx ++ ['&'], q', by omega, by simp [a], by simp [b]⟩
 
-/-! ## 3b. the greedy matcher `(?s)<key>.*</key>` -/
+/-! ## 3b. the greedy matcher for the key element -/
 
 def NoNl (e : Str) : Prop := ∀ c ∈ e, notNl c = true
+
+theorem splitAtGt_length : ∀ (l t r : Str), splitAtGt l = some (t, r) → r.length < l.length := by
+  intro l
+  induction l with
+  | nil => intro t r h; simp [splitAtGt] at h
+  | cons c cs ih =>
+    intro t r h
+    simp only [splitAtGt] at h
+    by_cases hc : c = '>'
+    · simp only [hc, if_true, Option.some.injEq, Prod.mk.injEq] at h
+      obtain ⟨_, rfl⟩ := h
+      simp
+    · simp only [hc, if_false] at h
+      cases hs : splitAtGt cs with
+      | none => simp [hs] at h
+      | some p =>
+        obtain ⟨t', x⟩ := p
+        simp only [hs, Option.some.injEq, Prod.mk.injEq] at h
+        have := ih t' x hs
+        obtain ⟨_, h2⟩ := h
+        subst h2
+        simp; omega
+
+theorem splitAtGt_append : ∀ (s X : Str), '>' ∈ s →
+    splitAtGt (s ++ X) = (splitAtGt s).map fun p => (p.1, p.2 ++ X) := by
+  intro s
+  induction s with
+  | nil => intro X h; cases h
+  | cons c cs ih =>
+    intro X h
+    simp only [List.cons_append, splitAtGt]
+    by_cases hc : c = '>'
+    · simp [hc]
+    · have hm : '>' ∈ cs := by
+        cases h with
+        | head => exact absurd rfl hc
+        | tail _ h' => exact h'
+      simp only [hc, if_false, ih X hm]
+      cases splitAtGt cs with
+      | none => rfl
+      | some p => rfl
+
+theorem tag?_append (valid : Str → Bool) (s X : Str) (h : '>' ∈ s) :
+    tag? valid (s ++ X) = (tag? valid s).map (· ++ X) := by
+  unfold tag?
+  rw [splitAtGt_append s X h]
+  cases splitAtGt s with
+  | none => rfl
+  | some p =>
+    obtain ⟨t, r⟩ := p
+    simp only [Option.map_some]
+    cases valid t <;> simp
+
+theorem tag?_length {valid : Str → Bool} {l r : Str} (h : tag? valid l = some r) : r.length < l.length := by
+  unfold tag? at h
+  cases hs : splitAtGt l with
+  | none => simp [hs] at h
+  | some p =>
+    obtain ⟨t, x⟩ := p
+    simp only [hs] at h
+    by_cases hv : valid t = true
+    · simp only [hv, if_true, Option.some.injEq] at h
+      subst h
+      exact splitAtGt_length _ _ _ hs
+    · simp [hv] at h
 
 theorem lastClose_length : ∀ (l r : Str), lastClose l = some r → r.length < l.length := by
   intro l
@@ -314,46 +379,48 @@ theorem lastClose_length : ∀ (l r : Str), lastClose l = some r → r.length < 
       simp; omega
     | none =>
       simp only [hc] at h
-      have := stripPrefix?_length h
-      simp [litClose] at this
-      simp; omega
+      exact tag?_length h
 
-/-- The greedy `.*` backtracks to the LAST `</key>`: what precedes an occurrence is irrelevant. -/
 theorem lastClose_append_close (x p1 : Str) :
     lastClose (x ++ (litClose ++ p1)) = some ((lastClose p1).getD p1) := by
   induction x with
   | nil =>
-    simp only [List.nil_append, litClose, List.cons_append, lastClose, stripPrefix?]
-    cases lastClose p1 <;> simp
+    simp only [List.nil_append, litClose, List.cons_append, lastClose]
+    cases lastClose p1 with
+    | some r => simp
+    | none =>
+      simp [tag?, splitAtGt, validClose, afterNs, keyCloseTail, nameCh, isWsRe]
   | cons c cs ih => simp only [List.cons_append, lastClose, ih]
 
 theorem keyStep_decr : Decr keyStep := by
   intro c cs out r h
   unfold keyStep at h
-  cases hs : stripPrefix? litOpen (c :: cs) with
+  cases hs : tag? validOpen (c :: cs) with
   | none => simp [hs] at h
   | some body =>
-    have hl := stripPrefix?_length hs
-    simp only [hs] at h
+    have hl := tag?_length hs
+    simp only [hs, Option.some.injEq, Prod.mk.injEq] at h
+    obtain ⟨_, rfl⟩ := h
     cases hb : lastClose body with
-    | none => simp [hb] at h
+    | none => simp
     | some after =>
-      simp only [hb, Option.some.injEq, Prod.mk.injEq] at h
-      obtain ⟨_, rfl⟩ := h
       have h1 := lastClose_length _ _ hb
-      simp [litOpen] at hl
+      simp at hl ⊢
       omega
 
-/-- The step started exactly at the real `<key>`. -/
+theorem tag?_open_lit (X : Str) : tag? validOpen (litOpen ++ X) = some X := by
+  simp [tag?, litOpen, splitAtGt, validOpen, afterNs, keyOpenTail, nameCh, isWsRe]
+
 theorem keyStep_at_key (k post : Str) :
     keyStep (litOpen ++ (k ++ (litClose ++ post))) =
       some (litOpen ++ xxx ++ litClose, (lastClose post).getD post) := by
   unfold keyStep
-  rw [stripPrefix?_append]
-  simp only
+  rw [tag?_open_lit]
+  simp only []
   rw [lastClose_append_close]
+  simp
 
-/-- **Non-interference of the `<key>` mask**: whatever precedes and follows, the masked body does not
+/-- **Non-interference of the key mask**: whatever precedes and follows, the masked body does not
 depend on the bytes between `<key>` and `</key>` — any bytes, line breaks included (flag `s`). -/
 theorem maskKey_independent (k1 k2 pre post : Str) :
     maskKey (pre ++ (litOpen ++ (k1 ++ (litClose ++ post)))) =
@@ -364,23 +431,23 @@ theorem maskKey_independent (k1 k2 pre post : Str) :
   · simp [litOpen]
   · exact ⟨_, _, keyStep_at_key k1 post, keyStep_at_key k2 post⟩
   · intro p hp
-    have hlen : litOpen.length ≤ (p ++ litOpen).length := by simp
-    have key : ∀ k : Str, stripPrefix? litOpen (p ++ (litOpen ++ (k ++ (litClose ++ post)))) =
-        (stripPrefix? litOpen (p ++ litOpen)).map (· ++ (k ++ (litClose ++ post))) := by
+    have hgt : '>' ∈ p ++ litOpen := by simp [litOpen]
+    have key : ∀ k : Str, tag? validOpen (p ++ (litOpen ++ (k ++ (litClose ++ post)))) =
+        (tag? validOpen (p ++ litOpen)).map (· ++ (k ++ (litClose ++ post))) := by
       intro k
       rw [← List.append_assoc]
-      exact stripPrefix?_append_of_le _ hlen
+      exact tag?_append _ _ _ hgt
     unfold keyStep
     rw [key k1, key k2]
-    cases hb : stripPrefix? litOpen (p ++ litOpen) with
+    cases hb : tag? validOpen (p ++ litOpen) with
     | none => left; simp
     | some b =>
-      -- a `<key>` in front: its match ends behind the last `</key>` of the whole text, in both variants
       right; left
       simp only [Option.map_some]
       refine ⟨litOpen ++ xxx ++ litClose, (lastClose post).getD post, ?_, ?_⟩
-      · rw [← List.append_assoc b k1, lastClose_append_close]
-      · rw [← List.append_assoc b k2, lastClose_append_close]
+      · rw [← List.append_assoc b k1, lastClose_append_close]; simp
+      · rw [← List.append_assoc b k2, lastClose_append_close]; simp
+
 
 /-! ## 4. escaping -/
 
